@@ -393,6 +393,24 @@ def check_c12(tier, seed, chk):
         violation(res, {"check": "terse", "class": "cases"}, "terse listing differs from the program's cases: unexpected %s, missing %s" % (
             [l for l in got_lines if l not in want_lines][:4], [l for l in want_lines if l not in got_lines][:4]), r2)
 
+    # (iii') the same listing without a flag and under --ignored: whichever way ignore resolves, every printed line is
+    # the path of one of the program's cases, no line appears twice, and the two listings together are the whole program
+    want_set = set(want_lines)
+    halves = []
+    for flag in ([], ["--ignored"]):
+        rh = run_zoo(binary, ["--list", "--format", "terse"] + flag, {"NEXTEST": "1"})
+        count_run(res, rh, len(rh.out.splitlines()))
+        lines = [l for l in rh.out.splitlines() if l.strip()]
+        halves.append(lines)
+        alien = [l for l in lines if l not in want_set]
+        if alien or len(set(lines)) != len(lines):
+            violation(res, {"check": "terse", "class": "alien-path", "flag": " ".join(flag) or "none"},
+                      "terse listing %s prints lines that are no case of the program (or prints a case twice): %s" % (" ".join(flag) or "(no flag)", (alien or [l for l in lines if lines.count(l) > 1])[:4]), rh)
+    if sorted(halves[0] + halves[1]) != want_lines and not any(v["sig"].get("class") == "alien-path" for v in res["violations"]):
+        both = set(halves[0]) & set(halves[1])
+        lost = [l for l in want_lines if l not in halves[0] and l not in halves[1]]
+        violation(res, {"check": "terse", "class": "partition"}, "the terse listings without a flag and under --ignored do not partition the program's cases: in both %s, in neither %s" % (sorted(both)[:4], lost[:4]), r2)
+
     # (iv) a full test run executes every case exactly once
     r3 = run_zoo(binary, ["--test", "--include-ignored"], timeout=600)
     count_run(res, r3, len(r3.log))
